@@ -680,7 +680,7 @@ const MATH_ENTRIES: [&str; 32] = [
 fn c11_isolated(ctx: &mut Ctx) {
     let ts = std_table();
     static MATH_IDX: OnceLock<Vec<usize>> = OnceLock::new();
-    let math = MATH_IDX.get_or_init(|| std_table().iter().enumerate().filter(|(_, e)| MATH_ENTRIES.contains(&e.name)).map(|(i, _)| i).collect());
+    let math = MATH_IDX.get_or_init(|| std_table().iter().enumerate().filter(|(_, e)| MATH_ENTRIES.contains(&e.name) || e.name.starts_with("Float::") || e.name.starts_with("FloatCore::")).map(|(i, _)| i).collect());
     let i = if ctx.chance(3, 4) && !math.is_empty() { math[ctx.below(math.len() as u64) as usize] } else { ctx.below(ts.len() as u64) as usize };
     let e = &ts[i];
     let mut x = gen_args(ctx);
